@@ -729,22 +729,31 @@ func runC16(r *Report, p *Program) {
 		count[s.list]++
 		r.Check(scope[s.fn], "R1", s.list+"/invoked-within-lifecycle:"+shortFunc(s.fn), s.in.Pos(), s.list+" callbacks are invoked only by startWithListenerFds, Instance.Restart, Instance.ShutdownCallbacks and their helpers")
 	}
-	// a list handed to a helper that runs it counts as invoked at that call
+	// who may touch the lists at all: every reference to one of the six fields of an Instance lies in the lifecycle
+	// functions (where it is run, or handed to a helper that runs it), or is a registration — the field is read only
+	// to append to it and store the result back
+	isList := map[string]bool{}
+	for _, l := range lists {
+		isList[l] = true
+	}
 	for _, fn := range p.ModFuncs() {
-		for _, l := range lists {
-			allInstrs(fn, func(in ssa.Instruction) {
-				c := callOf(in)
-				if c == nil || c.StaticCallee() == nil || fnPkg(c.StaticCallee()) == nil || !isModPkg(fnPkg(c.StaticCallee()).Path()) {
-					return
-				}
-				for _, a := range c.Args {
-					if p2, root := fieldPath(a); p2 == l && strings.HasSuffix(strings.TrimPrefix(root.Type().String(), "*"), "casket.Instance") {
-						count[l]++
-						r.Check(scope[fn], "R1", l+"/handed-on-within-lifecycle:"+shortFunc(fn), in.Pos(), l+" callbacks are handed to a helper only by the lifecycle functions")
-					}
-				}
-			})
-		}
+		allInstrs(fn, func(in ssa.Instruction) {
+			fa, ok := in.(*ssa.FieldAddr)
+			if !ok {
+				return
+			}
+			l := fieldName(fa.X.Type(), fa.Field)
+			if !isList[l] || !strings.HasSuffix(strings.TrimPrefix(fa.X.Type().String(), "*"), "casket.Instance") {
+				return
+			}
+			if scope[fn] {
+				count[l]++
+				r.Hold("R1", l+"/referenced-within-lifecycle:"+shortFunc(fn), in.Pos(), l+" is run, or handed to a helper that runs it, by the lifecycle functions")
+				return
+			}
+			registration := onlyRegisteredThrough(p, fa, scope, 0)
+			r.Check(registration, "R1", l+"/outside-lifecycle-only-registered:"+shortFunc(fn), in.Pos(), "outside the lifecycle functions "+l+" is only appended to (a callback is registered), never run or handed on")
+		})
 	}
 	for _, l := range lists {
 		if count[l] == 0 {
@@ -779,25 +788,10 @@ func runC16(r *Report, p *Program) {
 		r.Unresolve("R1", "no caller of Instance.ShutdownCallbacks found")
 	}
 
-	r.Rule("R2", "wait-group lineage: the Instance created in Restart takes its wg from the old instance's wg field", 1)
+	r.Rule("R2", "wait-group lineage (E10 lifecycle traces): in every evaluated Restart the instance handed to startWithListenerFds carries the very wait group of the instance being replaced", 1)
 	if rs != nil {
-		ok := false
-		allInstrs(rs, func(in ssa.Instruction) {
-			st, isSt := in.(*ssa.Store)
-			if !isSt {
-				return
-			}
-			fa, isFA := st.Addr.(*ssa.FieldAddr)
-			if !isFA || fieldName(fa.X.Type(), fa.Field) != "wg" {
-				return
-			}
-			if pth, root := fieldPath(st.Val); pth == "wg" {
-				if _, isParam := paramRoot(root); isParam {
-					ok = true
-				}
-			}
-		})
-		r.Check(ok, "R2", "casket.(*Instance).Restart/new-instance-wg", rs.Pos(), "the new instance shares the old instance's wait group, so Wait() on the old one also waits for its successors")
+		t := lifecycleTraces(h)
+		r.Check(t.wg == "" && t.other+t.oRestart == "", "R2", "casket.(*Instance).Restart/new-instance-wg", rs.Pos(), "the new instance shares the old instance's wait group, so Wait() on the old one also waits for its successors", t.wg, t.other+t.oRestart)
 	}
 
 	r.Rule("R3", "signal handling: on SIGTERM executeShutdownCallbacks precedes Stop precedes os.Exit", 2)
@@ -825,28 +819,15 @@ func runC16(r *Report, p *Program) {
 		r.Unresolve("R3", "trapSignalsPosix not found")
 	}
 
-	r.Rule("R4", "failure handling cannot be entered after the new instance is up: from the success edge of startWithListenerFds in Restart, every feasible return yields the new instance and a nil error (error edges of callees that always return nil are infeasible)", 1)
+	r.Rule("R4", "failure handling cannot be entered after the new instance is up (E10 lifecycle traces): in every evaluated Restart in which startWithListenerFds succeeded — whatever the old servers' Stop and the old shutdown callbacks report — the new instance is returned with a nil error and no restart-failed callback runs", 1)
 	if rs != nil && len(startNew) > 0 {
-		infeasible := infeasibleErrEdges(rs)
-		bad := ""
-		n := 0
-		reach(rs, startNew[0], cut{edges: mergeEdges(infeasible, errNonNilAfter(rs, startNew[0]))}, func(x ssa.Instruction) bool {
-			rt, ok := x.(*ssa.Return)
-			if !ok || rt.Block() == rs.Recover {
-				return true
-			}
-			n++
-			res := retResults(rt)
-			errV := res[1]
-			_, isParam := paramRoot(res[0])
-			c, isC := errV.(*ssa.Const)
-			if isParam || !isC || c.Value != nil {
-				bad = h.p.Pos(rt.Pos())
-			}
-			return true
-		})
-		r.Check(bad == "" && n > 0, "R4", "casket.(*Instance).Restart/after-new-instance-started", startNew[0].Pos(),
-			"once the new instance is serving, Restart returns it with a nil error (anything else runs OnRestartFailed and hands the caller a stopped instance)", "offending return: "+bad)
+		t := lifecycleTraces(h)
+		r.Check(t.afterUp == "" && t.other+t.oRestart == "", "R4", "casket.(*Instance).Restart/after-new-instance-started", startNew[0].Pos(),
+			"once the new instance is serving, Restart returns it with a nil error (anything else runs OnRestartFailed and hands the caller a stopped instance)", t.afterUp, t.other+t.oRestart)
+	} else if rs != nil {
+		t := lifecycleTraces(h)
+		r.Check(t.afterUp == "" && t.other+t.oRestart == "", "R4", "casket.(*Instance).Restart/after-new-instance-started", rs.Pos(),
+			"once the new instance is serving, Restart returns it with a nil error (anything else runs OnRestartFailed and hands the caller a stopped instance)", t.afterUp, t.other+t.oRestart)
 	}
 
 	r.Rule("R6", "lifecycle traces (E10): startWithListenerFds, Instance.Restart and Instance.ShutdownCallbacks are evaluated with oracle callbacks in all six lists and oracles for directive execution, MakeServers, startServers, the start of the new instance and the stop of the old servers, each succeeding or failing as the case says (32 + 8 + 4 cases); the observed trace must be the specified one: directives, MakeServers, first-startup callbacks (only when neither upgrading nor restarting), startup callbacks, then the servers — stopping at the first failure, which is returned; Restart runs the restart callbacks, starts the new instance, and only then stops the old servers and runs the old shutdown callbacks, returning the new instance with a nil error whatever those report, while any failure up to the start of the new instance runs the restart-failed callbacks and returns the old instance with the error; ShutdownCallbacks runs every shutdown and final-shutdown callback in order and reports their errors", 4)
@@ -931,25 +912,13 @@ func mergeEdges(a, b map[edge]bool) map[edge]bool {
 
 func runC07(r *Report, p *Program) {
 	h := H{r, p}
-	r.Rule("R1", "start-new-before-stop-old: in Instance.Restart the call to i.Stop() is reachable only after startWithListenerFds and only on its nil-error edge; every success return (nil error) passes i.Stop()", 2)
+	r.Rule("R1", "start-new-before-stop-old (E10 lifecycle traces): in every evaluated Restart — each restart callback, the start of the new instance, the stop of the old servers and each old shutdown callback failing in turn — the old servers are stopped only after the new instance started successfully, never when starting it failed, and every Restart that reports success has stopped them", 2)
 	rs := h.fn("R1", "", "(*Instance).Restart")
 	if rs != nil {
-		startNew := callsTo(rs, "casket.startWithListenerFds")
-		stops := callsTo(rs, "casket.Instance).Stop")
-		if len(startNew) == 0 || len(stops) == 0 {
-			r.Unresolve("R1", "Restart: startWithListenerFds or Stop call not found")
-		} else {
-			fail := errNonNilAfter(rs, startNew[0])
-			for _, s := range stops {
-				ok := mustPass(rs, s, anyOf(startNew)) && len(fail) > 0 && !canReachVia(rs, startNew[0], s, fail)
-				r.Check(ok, "R1", "casket.(*Instance).Restart/stop-old-after-new-started", s.Pos(), "the old instance is stopped only after the new one started, and never when starting it failed")
-			}
-			for _, rt := range realReturns(rs) {
-				if c, isC := retResults(rt)[1].(*ssa.Const); isC && c.Value == nil {
-					r.Check(mustPass(rs, rt, anyOf(stops)), "R1", "casket.(*Instance).Restart/success-implies-old-stopped", rt.Pos(), "when Restart reports success the old instance's listeners have been closed, so only the new configuration accepts")
-				}
-			}
-		}
+		t := lifecycleTraces(h)
+		n := sprintf("%d cases evaluated", t.n)
+		r.Check(t.restart == "" && t.other+t.oRestart == "", "R1", "casket.(*Instance).Restart/stop-old-after-new-started", rs.Pos(), "the old instance is stopped only after the new one started, and never when starting it failed", n, t.restart, t.other+t.oRestart)
+		r.Check(t.afterUp == "" && t.restart == "" && t.other+t.oRestart == "", "R1", "casket.(*Instance).Restart/success-implies-old-stopped", rs.Pos(), "when Restart reports success the old instance's listeners have been closed, so only the new configuration accepts", n, t.afterUp, t.other+t.oRestart)
 	}
 
 	r.Rule("R2", "sockets are handed over, never rebound — as a decision table (E10): startServers, evaluated for two servers on a first start, on a reload whose socket table has an entry for the first server's address, on a reload whose table is empty or has an entry for another address only: a server whose own address is in the table rebuilds its listener from the old listener's File() and does not call Listen; every other server calls Listen exactly once and inherits nothing", 2)
@@ -1107,3 +1076,55 @@ func canReachVia(fn *ssa.Function, start, target ssa.Instruction, via map[edge]b
 }
 
 func loopBlocks(hd *ssa.BasicBlock) map[*ssa.BasicBlock]bool { return naturalLoop(hd) }
+
+
+// onlyRegisteredThrough: an address of a callback list (the field address itself, a merge of such addresses, or the
+// result of a function returning one) is used — outside the lifecycle functions — only to append to the list: it is
+// stored through, or loaded from with the loaded list feeding nothing but append.
+func onlyRegisteredThrough(p *Program, addr ssa.Value, scope map[*ssa.Function]bool, depth int) bool {
+	if depth > 4 {
+		return false
+	}
+	refs := addr.Referrers()
+	if refs == nil {
+		return true
+	}
+	for _, rf := range *refs {
+		switch t := rf.(type) {
+		case *ssa.Store:
+			if t.Addr != addr {
+				return false
+			}
+		case *ssa.UnOp:
+			if lr := t.Referrers(); lr != nil {
+				for _, u := range *lr {
+					if _, isDbg := u.(*ssa.DebugRef); isDbg {
+						continue
+					}
+					c, isCall := u.(*ssa.Call)
+					if !isCall || calleeName(&c.Call) != "builtin.append" {
+						return false
+					}
+				}
+			}
+		case *ssa.Phi:
+			if !onlyRegisteredThrough(p, t, scope, depth+1) {
+				return false
+			}
+		case *ssa.Return:
+			for _, cs := range callSitesOf(p, t.Parent()) {
+				if scope[cs.Parent()] {
+					continue
+				}
+				v, ok := cs.(ssa.Value)
+				if !ok || !onlyRegisteredThrough(p, v, scope, depth+1) {
+					return false
+				}
+			}
+		case *ssa.DebugRef:
+		default:
+			return false
+		}
+	}
+	return true
+}
